@@ -124,6 +124,10 @@ def inputs(tier):
     # two copies of the same ligand in different chains that carry the same residue number
     for lig, partner in (('ACT', 'LYS'), ('MAM', 'GLU'), ('PYR', 'ASP'), ('MGU', 'GLU')):
         out.append(dict(src='twochains', lig=lig, partner=partner))
+    # a hetero group without chain id that carries the residue number of the protein residue it is docked to
+    for lig, partner in (('ACT', 'LYS'), ('MAM', 'GLU'), ('CA', 'ASP'), ('PYR', 'HIS')):
+        for level in ('exposed', 'mid'):
+            out.append(dict(src='blankhet', lig=lig, partner=partner, level=level))
     # multi-conformation, multi-chain inputs (conformations are completed from each other by residue identity)
     for lay in ([[' ', 'ASP'], ['B', 'ASPs']], [['A', 'ASP'], ['B', 'ALA']], [['A', 'ASP'], ['B', 'ASPs'], ['C', 'ASPnoCG']]):
         out.append(dict(src='c08', d=dict(kind='alt', layout=lay)))
@@ -172,6 +176,12 @@ def run_case(case, ctx, acc):
         s = c08.build(dict(case['d'], layout=[tuple(x) for x in case['d']['layout']]), ctx.seed)
     elif case.get('src') == 'twochains':
         s = build_twochains(case, ctx.seed)
+    elif case.get('src') == 'blankhet':
+        s = gen.pair(case['partner'], case['lig'], 2.9, level=case['level'], offset=gen.seed_offset(ctx.seed))
+        num = [a.resnum for a in s.atoms if a.chain == 'A' and a.resname == gen.KIND_RESNAME.get(case['partner'], case['partner'])][0]
+        for a in s.atoms:
+            if a.chain == 'B':
+                a.chain, a.resnum = ' ', num
     elif case.get('src') == 'c2dimer':
         a = gen.kind_struct(case['kind'], 'A', 1)
         a = gen.dock_at(a, gen.kind_atom(case['kind'], a), (case['dist'] / 2.0, 0.0, 0.0), (1.0, 0.0, 0.0))
